@@ -35,6 +35,16 @@ class Conc(Family):
             for b in fe_ops:
                 out.append((case("frontend", [("set_log_base", 1), (b, 2)], rng.choice([10, 20])), "frontend-2"))
             out.append((case("proxy", [("shared_object_add", i) for i in range(3)], 0, 3000), "proxy-stress"))
+            # every operation of the backend-request proxy that reads an acknowledgement, one caller accepted and one
+            # refused by the peer, so that an acknowledgement that reaches the wrong caller shows in its result
+            out.append((case("proxy", [("shmem_map", 1), ("shmem_unmap", 200), ("shared_object_add", 2)], 0, 3000), "proxy-stress"))
+            out.append((case("proxy", [("shmem_unmap", 1), ("shmem_unmap", 201)], 0, 3000), "proxy-stress"))
+            out.append((case("proxy", [("shmem_map", 1), ("shmem_map", 202), ("shared_object_remove", 3)], 0, 3000), "proxy-stress"))
+            out.append((case("proxy", [("shared_object_add", 1), ("shared_object_remove", 203)], 0, 3000), "proxy-stress"))
+            px_ops = ["shared_object_add", "shared_object_remove", "shmem_map", "shmem_unmap"]
+            for a in px_ops:
+                for b in px_ops:
+                    out.append((case("proxy", [(a, 1), (b, rng.choice([2, 200]))], rng.choice([10, 20])), "proxy-2"))
             out.append((case("gpu", [("get_protocol_features", 0)] * 3, 0, 3000), "gpu-stress"))
             # acknowledged, reply-bearing and fire-and-forget GPU operations mixed
             out.append((case("gpu", [("update_dmabuf_scanout", 0), ("get_protocol_features", 0), ("get_protocol_features", 0)], 0, 3000), "gpu-stress"))
